@@ -208,6 +208,34 @@ def classes_of(name, val):
     return cs
 
 
+ENUMS = {}
+
+
+def load_enums():
+    """member name -> the const values the published schemas enumerate for it (oneOf / anyOf of const)"""
+    ENUMS.clear()
+    for p in glob.glob(os.path.join(REPO, "data", "schemas", "**", "*.json"), recursive=True):
+        def walk(x):
+            if isinstance(x, dict):
+                props = x.get("properties")
+                if isinstance(props, dict):
+                    for name, sub in props.items():
+                        for holder in (sub, sub.get("items") if isinstance(sub, dict) else None):
+                            if isinstance(holder, dict):
+                                for k in ("oneOf", "anyOf"):
+                                    if isinstance(holder.get(k), list):
+                                        cs = [y["const"] for y in holder[k] if isinstance(y, dict) and isinstance(y.get("const"), str)]
+                                        if cs:
+                                            ENUMS.setdefault(name, set()).update(cs)
+                for v in x.values():
+                    walk(v)
+            elif isinstance(x, list):
+                [walk(y) for y in x]
+        walk(json.load(open(p)))
+    for k in list(ENUMS):
+        ENUMS[k] = sorted(ENUMS[k])
+
+
 def leaves(j, path=()):
     """all (path, parent, key, value) positions of a JSON value"""
     if isinstance(j, dict):
@@ -247,6 +275,9 @@ def mutate(rng, doc, stats):
                 nv = "%04d-%02d-%02d" % (y, m, rng.randint(1, dim))
             if cls == "amount" and valid and rng.random() < 0.5:
                 nv = cg.fmt(cg.A(rng.randrange(-10 ** rng.randint(1, 9), 10 ** rng.randint(1, 9)), rng.randint(0, 6)))
+            if name in ENUMS and rng.random() < 0.4:
+                # another value the published schema enumerates for this member
+                cls, valid, nv = "enum", True, rng.choice(ENUMS[name])
             parent[key] = nv
             changes.append((cls + ("+" if valid else "-"), path, nv))
             stats[cls] = stats.get(cls, 0) + 1
@@ -518,6 +549,10 @@ def judge(c, stream, items, state):
             if acc:
                 c.report("Go accepted a document whose schema %s is not published" % sid, {"document": d, "schema": sid})
             continue
+        if p.get("crashed") and m in ("invalid", "undetermined") and pvv == "undetermined":
+            # python stops at the first unresolvable reference / ill-typed keyword it trips over; the model's
+            # three-valued evaluation may already know the document is invalid for another reason
+            pvv = m
         if m != pvv:
             # the two readings of the schema disagree
             if state["disagree"] < 3:
@@ -529,9 +564,15 @@ def judge(c, stream, items, state):
         if not acc or m == "valid":
             continue
         if m == "undetermined":
-            fid = F_DELIVERY if sid == GOBL + "bill/delivery" else None
-            c.report("the published schema %s has no defined verdict on a document the library accepted (ill-typed keyword): %s" % (sid, [e["msg"] for e in p.get("errors", [])[:1]]),
-                     {"document": d, "schema": sid, "python": dict(p, errors=p.get("errors", [])[:6])}, finding_id=fid)
+            fid = F_DELIVERY if (sid == GOBL + "bill/delivery" and all(classify(e, inst, sid) == F_DELIVERY for e in p.get("errors", []))
+                                 and p.get("errors") and not p.get("crashed")) else None
+            if fid is None:
+                state["undetermined"] = state.get("undetermined", 0) + 1
+                if state["undetermined"] > 2:
+                    continue
+            c.report("the published schema %s has no defined verdict on a document the library accepted (ill-typed keyword or unresolvable reference): %s" % (
+                sid, [e["msg"] for e in p.get("errors", [])[:1]] or p.get("crashed")),
+                {"document": d, "schema": sid, "python": dict(p, errors=p.get("errors", [])[:6])}, finding_id=fid)
             continue
         # Go accepted, both validators reject
         new = []
@@ -639,11 +680,24 @@ def run(c):
                  {"theorem": "harness/gen_schemas.go -> rocq/Gen/Schemas.v", "translator_output": out[-2000:]}, no_input=True)
         return
     proved = c.prove()
+    if not proved:
+        pr = c.proof
+        log_ = (pr.get("make_log") or pr.get("log", ""))
+        m = re.search(r'File "[^"]*Props/C11.v", line (\d+)', log_)
+        thm = None
+        if m:
+            src = open(os.path.join(ROCQ, "Props", "C11.v")).read().split("\n")[:int(m.group(1))]
+            names = [re.match(r"\s*(?:Theorem|Example)\s+([A-Za-z0-9_']+)", l) for l in src]
+            names = [x.group(1) for x in names if x]
+            thm = names[-1] if names else None
+        c.report("proof obligations of Props/C11.v no longer check%s: %s" % (" (theorem %s)" % thm if thm else "", log_[-500:]),
+                 {"theorem": "rocq/Props/C11.v" + (":" + thm if thm else ""), "failed_files": pr.get("failed_files"), "forbidden": pr.get("forbidden")}, no_input=True)
     ok, out = build_oracle()
     if not ok:
         c.report("extraction/oracle build failed: " + out[-800:], {"machinery": "oracle"}, no_input=True)
         return
     cg.reset_tables()
+    load_enums()
 
     check_schema_files(c)
 
@@ -692,7 +746,7 @@ def run(c):
     c.cov["known_finding_locations"] = state["finding_locations"]
     c.cov["failing_inputs_not_explained_by_a_recorded_finding"] = state["reported"]
     c.cov["rule"] = ("schema files: all files under data/schemas (exhaustive); documents: every example output under */out (envelope and bare document), invoices generated "
-                     "from the seed (calcgen), and 1-3 field-level mutations of the examples (dates, amounts, percentages, keys, codes, uuids, currency and country codes, "
+                     "from the seed (calcgen), and 1-3 field-level mutations of the examples (dates, amounts, percentages, keys, values the schema enumerates for the member, codes, uuids, currency and country codes, "
                      "text, numbers, map entries, dropped members, duplicated elements, retyped values; 70% of replaced values valid). Every document goes through Go; "
                      "Go-accepted: serialised envelope and document validated against their published schemas by the extracted validator and python jsonschema (P); "
                      "Go-rejected: the given document validated by both (validators compared on invalid documents). distinct = distinct (schema, instance) pairs; "
@@ -700,10 +754,6 @@ def run(c):
     acc = sum(v for k, v in state["verdicts"].items() if k[0])
     if acc < 50 or not any(k[1] == "invalid" for k in state["verdicts"]):
         c.report("the sweep did not reach its interesting cases (accepted=%d, verdict classes=%s)" % (acc, list(state["verdicts"])), {"machinery": "generator"}, no_input=True)
-    if not proved:
-        pr = c.proof
-        c.report("proof obligations of Props/C11.v no longer check: " + (pr.get("make_log") or pr.get("log", ""))[-700:],
-                 {"theorem": "rocq/Props/C11.v", "failed_files": pr.get("failed_files"), "forbidden": pr.get("forbidden")}, no_input=True)
 
 
 def replay(path):
